@@ -227,6 +227,12 @@ impl Series1 {
                 if !m.is_finite() {
                     continue;
                 }
+                if m == 0.0 {
+                    // A flat segment lying on the level, both of its ends are crossings
+                    crossings.push(x0);
+                    crossings.push(x1);
+                    continue;
+                }
                 let x = x0 + (y_equals - v0) / m;
                 crossings.push(x);
             }
